@@ -29,7 +29,7 @@ fn cli_large_keyrings(ctx: &Ctx) {
     let wd = WorkDir::new("c17l");
     let alice = crate::cli::Ident::new("alice", "apw", &mut rng);
     let last = crate::cli::Ident::new("zz-last-entry", "zpw", &mut rng);
-    let sizes: Vec<(&str, usize)> = ctx.tier.pick(vec![("about 80 KiB", 900usize), ("about 200 KiB", 2300), ("about 1.2 MiB", 13_500)], vec![("about 80 KiB", 900usize), ("about 200 KiB", 2300), ("about 1.2 MiB", 13_500), ("about 5 MiB", 56_000), ("about 17 MiB", 190_000)]);
+    let sizes: Vec<(&str, usize)> = ctx.tier.pick(vec![("about 80 KiB", 900usize), ("about 200 KiB", 2300), ("about 1.2 MiB", 13_500)], vec![("about 80 KiB", 900usize), ("about 200 KiB", 2300), ("about 1.2 MiB", 13_500), ("about 5 MiB", 56_000)]);
     for (what, contacts) in sizes {
         let mut text = alice.entry(true);
         for i in 0..contacts {
@@ -65,13 +65,24 @@ fn cli_large_keyrings(ctx: &Ctx) {
         }
         // the same two keyrings DELIVERED otherwise: through the path /dev/stdin (a pipe) and through a named pipe -
         // sources whose length is not known in advance; the keyring is what arrives, all of it
-        for (delivery, text, must_work) in [("-k /dev/stdin", &ok_text, true), ("-k /dev/stdin", &dup_text, false), ("-k named pipe", &ok_text, true), ("-k named pipe", &dup_text, false)] {
+        // ... in one piece, and in two pieces with a pause between them, cut exactly at a section boundary (the needed
+        // entry, or the duplicate, arrives only with the second piece)
+        let cut_ok = text.len() + 1;
+        let cut_dup = ok_text.len() + 1;
+        for (delivery, text, must_work, cut) in [
+            ("-k /dev/stdin", &ok_text, true, 0usize), ("-k /dev/stdin", &dup_text, false, 0), ("-k named pipe", &ok_text, true, 0), ("-k named pipe", &dup_text, false, 0),
+            ("-k /dev/stdin, two pieces", &ok_text, true, cut_ok), ("-k /dev/stdin, two pieces", &dup_text, false, cut_dup), ("-k named pipe, two pieces", &ok_text, true, cut_ok), ("-k named pipe, two pieces", &dup_text, false, cut_dup),
+        ] {
+            if cut > 0 && what != "about 80 KiB" {
+                continue;
+            }
             let target = if must_work { last.name.as_str() } else { "contact-00001" };
             let fifo = wd.file("kr.fifo");
             let _ = std::fs::remove_file(&fifo);
             let mut feeder: Option<std::thread::JoinHandle<()>> = None;
-            let o = if delivery == "-k /dev/stdin" {
-                Cmd::new(&wd.path, &["encrypt", "m.txt", "-t", target, "-f", "alice", "-k", "/dev/stdin", "--env-pass"]).pass("apw").stdin(Stdin::Bytes(text.clone().into_bytes())).run()
+            let o = if delivery.starts_with("-k /dev/stdin") {
+                let feed = if cut > 0 { Stdin::Dribble(text.clone().into_bytes(), vec![cut, 0, 0, text.len() - cut]) } else { Stdin::Bytes(text.clone().into_bytes()) };
+                Cmd::new(&wd.path, &["encrypt", "m.txt", "-t", target, "-f", "alice", "-k", "/dev/stdin", "--env-pass"]).pass("apw").stdin(feed).run()
             } else {
                 let c = std::ffi::CString::new(fifo.to_string_lossy().as_bytes()).unwrap();
                 if unsafe { libc::mkfifo(c.as_ptr(), 0o600) } != 0 {
@@ -89,7 +100,14 @@ fn cli_large_keyrings(ctx: &Ctx) {
                                     let fl = libc::fcntl(h.as_raw_fd(), libc::F_GETFL);
                                     libc::fcntl(h.as_raw_fd(), libc::F_SETFL, fl & !libc::O_NONBLOCK);
                                 }
-                                let _ = h.write_all(&bytes);
+                                if cut > 0 {
+                                    let _ = h.write_all(&bytes[..cut]);
+                                    let _ = h.flush();
+                                    std::thread::sleep(std::time::Duration::from_millis(900));
+                                    let _ = h.write_all(&bytes[cut..]);
+                                } else {
+                                    let _ = h.write_all(&bytes);
+                                }
                                 return;
                             }
                             Err(_) => std::thread::sleep(std::time::Duration::from_millis(10)),
